@@ -151,6 +151,7 @@ func init() {
 		Keep: []string{"root", "root/a", "root/d", "root/d/x", "root/bulk", "root/bulk/f00000", "root/bulk/f16000", "root/bulk/f32700"}}
 	RegisterSeq("c08.inodes", &SeqSpec{Prop: "C08", Prep: "inofull", Alphabet: c08InodeAlphabet(), After: c08After, Strict: true, AllowImplFail: true})
 	RegisterSeq("c08.seq", &SeqSpec{Prop: "C08", DiskSize: 3000, Alphabet: c08Alphabet(), After: c08After, Strict: true})
+	RegisterSeq("c08.seq.ic2", &SeqSpec{Prop: "C08", DiskSize: 3000, Alphabet: c08Alphabet(), After: c08After, Strict: true, ICacheSz: 2})
 }
 
 func C08(r *report.Report, tier string) {
@@ -166,5 +167,7 @@ func C08(r *report.Report, tier string) {
 	s1 := RunSeq(r, "c08.seq", depth)
 	s2 := RunSeq(r, "c08.dirs", depth-1)
 	s3 := RunSeq(r, "c08.inodes", idepth)
-	r.Extra["searches"] = []*SeqSummary{s1, s2, s3}
+	// an inode cache of two: generations are re-read from the disk / the journal at nearly every use of a handle
+	s4 := RunSeq(r, "c08.seq.ic2", depth-1)
+	r.Extra["searches"] = []*SeqSummary{s1, s2, s3, s4}
 }
